@@ -526,9 +526,14 @@ def build_request(spec, sid, tb):
             raw = p.priv[by].sign(data)
             if sg.get('flip'):
                 raw = bytes([raw[0] ^ 1]) + raw[1:]
-            else:
+            elif not sg.get('empty'):
                 tb.sigs.append((p.kid[by], data, M.sstr('ssh-ed25519') + M.sstr(raw)))
-            body += M.sstr(M.sstr('ssh-ed25519') + M.sstr(raw))
+            if sg.get('empty') == 'string':
+                body += M.sstr(b'')                         # zero-length signature string
+            elif sg.get('empty'):
+                body += M.sstr(M.sstr('ssh-ed25519') + M.sstr(b''))     # well-formed blob, zero-length signature
+            else:
+                body += M.sstr(M.sstr('ssh-ed25519') + M.sstr(raw))
     elif meth == 'keyboard-interactive':
         body = M.sstr(spec.get('lang', '').encode('latin-1')) + M.sstr(tb.text(spec.get('sub', '').encode('latin-1')))
     else:
